@@ -117,7 +117,7 @@ def soft_one_hot_linspace(x: torch.Tensor, start, end, number, basis=None, cutof
         return torch.cos(math.pi / 2 * diff) * (diff < 1) * (-1 < diff)
 
     if basis == "smooth_finite":
-        return 1.14136 * torch.exp(torch.tensor(2.0)) * soft_unit_step(diff + 1) * soft_unit_step(1 - diff)
+        return 1.14136 * math.exp(2.0) * soft_unit_step(diff + 1) * soft_unit_step(1 - diff)
 
     if basis == "fourier":
         x = (x[..., None] - start) / (end - start)
